@@ -233,7 +233,7 @@ example : Message.parse Demo.joinText = .ok ⟨none, str "join", [str "#c", str 
 example : (step Demo.cfg Demo.w0 (.line 2 Demo.joinText)).outs =
     [(2, str ":bob!~bob@10.0.0.2 JOIN #c"),
      (2, str ":irc.irc 353 bob = #c :~alice bob"),
-     (2, str ":irc.irc 366 bob #c :End of /NAMES list"),
+     (2, (str ":irc.irc " ++ Reply.RplEndOfNames366 (client := str "bob") (channel := str "#c"))),
      (1, str ":bob!~bob@10.0.0.2 JOIN #c")] := by decide
 
 /-! ## 3. end-to-end corollaries -/
@@ -363,7 +363,7 @@ example : (step Demo.cfg Demo.w0 (.line 2 (linePrivmsg (str "notice") Demo.chan 
 example : ¬ C10.Spec.maySpeak ((Map.lookup Demo.chan Demo.w2.channels).getD default) Demo.bob
     Demo.bobConn.source := fun h => absurd ((C10.canSend_iff _ _ _).mpr h) (by decide)
 example : (step Demo.cfg Demo.w2 (.line 2 (linePrivmsg (str "PRIVMSG") Demo.chan Demo.text))).outs =
-      [(2, str ":irc.irc 404 bob #c :Cannot send to channel")] ∧
+      [(2, (str ":irc.irc " ++ Reply.ErrCannotSendToChain404 (client := str "bob") (channel := str "#c")))] ∧
     (step Demo.cfg Demo.w2 (.line 2 (linePrivmsg (str "NOTICE") Demo.chan Demo.text))).outs = [] := by
   decide
 
@@ -484,9 +484,9 @@ example : Verb (str "join") (str "JOIN") ∧ WfChan Demo.chan ∧ WfKey (str "se
 example : C07.Spec.admit ⟨Demo.chanC, Demo.chan, some (str "wrong"), Demo.bobConn.source,
       Demo.bobUser.invitedTo⟩ = .error .badKey ∧
     (step Demo.cfg Demo.w0 (.line 2 (joinText (str "JOIN") Demo.chan (some (str "wrong"))))).outs =
-      [(2, str ":irc.irc 475 bob #c :Cannot join channel (+k)")] ∧
+      [(2, (str ":irc.irc " ++ Reply.ErrBadChannelKey475 (client := str "bob") (channel := str "#c")))] ∧
     (step Demo.cfg Demo.w0 (.line 2 (joinText (str "JOIN") Demo.chan none))).outs =
-      [(2, str ":irc.irc 475 bob #c :Cannot join channel (+k)")] ∧
+      [(2, (str ":irc.irc " ++ Reply.ErrBadChannelKey475 (client := str "bob") (channel := str "#c")))] ∧
     (step Demo.cfg Demo.w0 (.line 2 (joinText (str "JOIN") Demo.chan none))).w.channels =
       Demo.w0.channels := by decide
 
@@ -524,9 +524,9 @@ def Demo.wU : World := run Demo.cfg (Demo.evs.take 5)
 example : Inv Demo.wU := inv_run (by decide)
 example : ((Demo.wU.conn? 2).map (·.authenticated)) = some false := by decide
 example : (step Demo.cfg Demo.wU (.line 2 (lineJoin (str "JOIN") Demo.chan))).outs =
-      [(2, str ":irc.irc 451 bob :You have not registered")] ∧
+      [(2, (str ":irc.irc " ++ Reply.ErrNotRegistered451 (client := str "bob")))] ∧
     (step Demo.cfg Demo.wU (.line 2 (linePrivmsg (str "privmsg") Demo.chan Demo.text))).outs =
-      [(2, str ":irc.irc 451 bob :You have not registered")] ∧
+      [(2, (str ":irc.irc " ++ Reply.ErrNotRegistered451 (client := str "bob")))] ∧
     (step Demo.cfg Demo.wU (.line 2 (lineJoin (str "JOIN") Demo.chan))).w.users = Demo.wU.users := by
   decide
 
@@ -581,7 +581,7 @@ example : (step Demo.cfg Demo.w1 (.line 1 (lineNick (str "nick") (str "carol")))
     Map.keys (step Demo.cfg Demo.w1 (.line 1 (lineNick (str "nick") (str "carol")))).w.users =
       [str "bob", str "carol"] := by decide
 example : (step Demo.cfg Demo.w1 (.line 2 (lineNick (str "NICK") Demo.alice))).outs =
-    [(2, str ":irc.irc 433 bob alice :Nickname is already in use")] := by decide
+    [(2, (str ":irc.irc " ++ Reply.ErrNicknameInUse433 (client := str "bob") (nick := str "alice")))] := by decide
 
 /-! ### KICK -/
 
@@ -684,9 +684,9 @@ example : (step Demo.cfg Demo.w1 (.line 1 (lineKick (str "kick") Demo.chan Demo.
       (lineKick (str "kick") Demo.chan Demo.bob (str "out: now ")))).w.channels).map
         (fun C => Map.keys C.users)) = some [str "alice"] := by decide
 example : (step Demo.cfg Demo.w1 (.line 2 (lineKick (str "KICK") Demo.chan Demo.alice (str "x")))).outs =
-      [(2, str ":irc.irc 482 bob #c :You're not channel operator")] ∧
+      [(2, (str ":irc.irc " ++ Reply.ErrChanOpPrivsNeeded482 (client := str "bob") (channel := str "#c")))] ∧
     (step Demo.cfg Demo.w1 (.line 1 (lineKick (str "KICK") Demo.chan (str "zed") (str "x")))).outs =
-      [(1, str ":irc.irc 441 alice zed #c :They aren't on that channel")] := by decide
+      [(1, (str ":irc.irc " ++ Reply.ErrUserNotInChannel441 (client := str "alice") (nick := str "zed") (channel := str "#c")))] := by decide
 
 /-! ### OPER -/
 
@@ -733,13 +733,13 @@ example : Inv Demo.wO := inv_run (by decide)
 example : C11.OperGranted Demo.cfgO (str "alice!~alice@10.0.0.1") (str "root") (str "pw") :=
   ⟨_, rfl, by decide, Or.inr ⟨_, rfl, by decide⟩⟩
 example : (step Demo.cfgO Demo.wO (.line 1 (lineOper (str "oper") (str "root") (str "pw")))).outs =
-      [(1, str ":irc.irc 381 alice :You are now an IRC operator")] ∧
+      [(1, (str ":irc.irc " ++ Reply.RplYoureOper381 (client := str "alice")))] ∧
     C11.operOf (step Demo.cfgO Demo.wO (.line 1 (lineOper (str "oper") (str "root") (str "pw")))).w
       (str "alice") = true ∧
     (step Demo.cfgO Demo.wO (.line 1 (lineOper (str "OPER") (str "root") (str "no")))).outs =
-      [(1, str ":irc.irc 464 alice :Password incorrect")] ∧
+      [(1, (str ":irc.irc " ++ Reply.ErrPasswdMismatch464 (client := str "alice")))] ∧
     (step Demo.cfgO Demo.wO (.line 1 (lineOper (str "OPER") (str "toor") (str "pw")))).outs =
-      [(1, str ":irc.irc 491 alice :No O-lines for your host")] := by decide
+      [(1, (str ":irc.irc " ++ Reply.ErrNoOperHost491 (client := str "alice")))] := by decide
 
 /-! ## 4. reachable worlds -/
 
@@ -815,7 +815,7 @@ example : JoinWire Demo.cfg Demo.w0 2 Demo.bobConn Demo.bob
 example : (step Demo.cfg Demo.w0 (.line 2 (joinText (str "join") Demo.chan (some (str "sesame"))))).outs =
       [(2, str ":bob!~bob@10.0.0.2 JOIN #c"),
        (2, str ":irc.irc 353 bob = #c :~alice bob"),
-       (2, str ":irc.irc 366 bob #c :End of /NAMES list"),
+       (2, (str ":irc.irc " ++ Reply.RplEndOfNames366 (client := str "bob") (channel := str "#c"))),
        (1, str ":bob!~bob@10.0.0.2 JOIN #c")] ∧
     Map.keys Demo.chanC1.users = [str "alice", str "bob"] := by decide
 
